@@ -85,6 +85,8 @@ def stage(ctx):
         if fn.endswith(".cases.jsonl"):
             with open(os.path.join(outdir, fn)) as f:
                 cases += [json.loads(l) for l in f if l.strip()]
+    # a shard that was restarted after a watchdog stop writes the cases since its last checkpoint again: keep one record per id
+    cases = list({c["id"]: c for c in cases}.values())
     allcases = os.path.join(outdir, "all.cases.jsonl")
     with open(allcases, "w") as f:
         for c in cases:
